@@ -20,7 +20,7 @@ from ..report import AnalysisError
 
 FLOORS = {"pair-append": 5, "append-provenance": 4, "init-pair": 3, "exchange-pair": 3,
           "replace-last": 2, "mode": 3, "ownership": 6, "walker-pair": 1, "ensemble-append": 1,
-          "store-integrity": 2}
+          "store-integrity": 2, "store-owns-data": 2}
 
 
 def run(prog, tier):
@@ -161,6 +161,23 @@ def run(prog, tier):
             for o in res:
                 if not o.ok:
                     info.append(f"C03 sweep (not part of this property): {o.construct} {o.msg}")
+
+    # ------------------------------------------------------------ the stores own their data
+    for cname in ("HamiltonianChain", "EnsembleSampler"):
+        ci = prog.cls(cname)
+        st = stores[cname]
+        attr_alias, ctor_info = class_attr_aliases(own, prog, ci)
+        retained = {}
+        for attr in (st.S, st.P, "walker_positions", "walker_probs"):
+            for root in attr_alias.get(attr, ()):
+                pname = root_param(root)
+                if pname is not None:
+                    retained.setdefault(attr, set()).add(pname)
+        obs.append(struct_ob("store-owns-data", f"{ci.module.name}.{cname}.__init__", not retained,
+                             f"recorded state {sorted(retained)} may be the caller's own array (constructor parameter(s) "
+                             f"{sorted({p for v in retained.values() for p in v})} stored without a copy): a later write by the caller, or "
+                             f"a second sampler built from the same array, changes a recorded sample under its frozen log-probability",
+                             ci.module.relpath, ci.methods["__init__"].lineno, slots={"retained": {k: sorted(v) for k, v in retained.items()}}))
 
     # ------------------------------------------------------------ stored samples are never written through
     for cname in ("HamiltonianChain", "EnsembleSampler"):
